@@ -178,7 +178,7 @@ def _sched(shard):
             done = r["bound_completed"]
             r = S.explore(lk, args, None, nthreads=nth, max_exec=MAX_EXEC, stop_on_diff=True)
             r["bound_completed"] = -1 if (not r["capped"] and r["outcomes"] == 1) else done  # -1 = unbounded completed
-    except (S.LiftError, SyntaxError, AttributeError, KeyError) as e:
+    except (S.LiftError, SyntaxError, AttributeError, KeyError, TypeError, NameError, ValueError, IndexError) as e:
         # an AST shape the lifter does not model: the schedule space of this kernel cannot be enumerated. That is a
         # limit of the harness, not a verdict on the code: nothing is reported for this kernel here (the native
         # conformance sweep over thread counts and chunk sizes still runs on it) and the evidence says so.
